@@ -21,7 +21,8 @@ META = dict(
          "connected, not cut off, .ca/.ha equal to the double's getsockname()/getpeername(), peer open - from the 4th good "
          "call on; a subject that is not reconnectable constructs no socket after it has been cut off; nothing raises. "
          "ClientTls (fake TLS context, handshake completes or answers want-read by choice; live also means handshaked on the "
-         "current socket) runs the same schedules, an https Patron over ClientTls the reconnectable ones. Extra subject PatronSSE: a reconnectable Patron follows a text/event-stream whose server announces retry: 500 (ms) and "
+         "current socket) runs the same schedules, an https Patron over ClientTls the reconnectable ones; Patron and https Patron are also built WITHOUT store= "
+         "and time is then advanced through patron.store. Extra subject PatronSSE: a reconnectable Patron follows a text/event-stream whose server announces retry: 500 (ms) and "
          "drops the stream 3 (4) times, after 2, 0 or 6 calls, by close or ECONNRESET - all combinations; it must be live again "
          "within 8 service calls (retry/step + 4) of every cut.",
     note="Doubles replace loopback sockets so that the harness owns the schedule. 'Service call' for a bare Client is the "
@@ -38,7 +39,10 @@ T = 1.0
 ADV = (T, T / 2, 0.0)                 # variant "immediate": default one timeout per service call
 ADV_REAL = (T / 4, T, 0.0, 10 * T)    # variant "realistic": serviced 4x per timeout; 10T = long uptime / outage
 SUBJECTS = ("Client", "Patron", "TcpClientStack", "ClientTls")
-TLS_EXTRA = (("PatronTls", True, True),)     # https Patron over ClientTls, reconnectable
+TLS_EXTRA = (("PatronTls", True, True),)
+# Patron / https Patron built WITHOUT store=: they create their own Store, the harness advances time through
+# patron.store (as Patron.serviceWhile does); same schedules, reconnectable, server initially up
+OWNSTORE_EXTRA = (("PatronOwnStore", True, True), ("PatronTlsOwnStore", True, True))     # https Patron over ClientTls, reconnectable
 BOUNDS = dict(quick=dict(dev=3, H=6), thorough=dict(dev=4, H=9))
 CLOSING = 6
 WINDOW = 4
@@ -60,7 +64,8 @@ def init():
     from ioflo.aio.http import clienting as hclienting
     from ioflo.aio.proto import stacking
     FSM = net.FakeSocketModule().install()
-    M = dict(clienting=clienting, hclienting=hclienting, stacking=stacking)
+    from ioflo.base import storing
+    M = dict(clienting=clienting, hclienting=hclienting, stacking=stacking, storing=storing)
 
 
 class Policy:
@@ -147,13 +152,15 @@ def build(subject, reconnectable, ck, fn):
             c.serviceReceives()
             c.serviceTxes()
         return c, (lambda: c), service
-    if subject == "Patron":
-        p = M["hclienting"].Patron(store=ck, hostname=net.LOOP, port=PORT, timeout=T, reconnectable=reconnectable)
+    if subject in ("Patron", "PatronOwnStore"):
+        kw = dict(store=ck) if subject == "Patron" else {}
+        p = M["hclienting"].Patron(hostname=net.LOOP, port=PORT, timeout=T, reconnectable=reconnectable, **kw)
         p.connector.reopen()
         return p, (lambda: p.connector), p.serviceAll
-    if subject == "PatronTls":
-        p = M["hclienting"].Patron(store=ck, hostname=net.LOOP, port=PORT, scheme=u"https", timeout=T,
-                                   reconnectable=reconnectable, context=net.FakeSslContext(fn))
+    if subject in ("PatronTls", "PatronTlsOwnStore"):
+        kw = dict(store=ck) if subject == "PatronTls" else {}
+        p = M["hclienting"].Patron(hostname=net.LOOP, port=PORT, scheme=u"https", timeout=T,
+                                   reconnectable=reconnectable, context=net.FakeSslContext(fn), **kw)
         if not isinstance(p.connector, M["clienting"].ClientTls):
             raise core.BrokenCheck("https Patron did not build a ClientTls connector")
         p.connector.reopen()
@@ -222,6 +229,9 @@ def execute(ch, subject, reconnectable, up0, H, part, states):
     fn.menu = faulty
     try:
         obj, handler, service = build(subject, reconnectable, ck, fn)
+        if subject.endswith("OwnStore"):
+            ck = obj.store                 # no store was given: time passes on the Patron's own Store
+            M["storing"].Store.Clear()     # (keeps the class-level name registry from growing over the executions)
     except Exception as ex:
         return ("raised|%s|%s" % (type(ex).__name__, where_of(ex)), "constructor raised %r" % ex, sched, fn)
     was_connected = False
@@ -250,7 +260,7 @@ def execute(ch, subject, reconnectable, up0, H, part, states):
             # immediate: one timeout per call; realistic: the timeout elapses once, then 4 calls per timeout
             # steady: never a jump, 4 calls per timeout
             ev, dt = "-", (T if (not realistic or (step == H and not steady)) else T / 4)
-        ck.advance(dt)
+        ck.advanceStamp(dt)
         mark = len(fn.log)
         try:
             service()
@@ -484,6 +494,7 @@ def run():
     cfgs = [(s, r, u) for s in SUBJECTS for r in (True, False) for u in (True, False)]
     cfgs.append(("PatronSSE", True, True))
     cfgs.extend(TLS_EXTRA)
+    cfgs.extend(OWNSTORE_EXTRA)
     ck.merge(core.pmap(work, cfgs))
     ck.part.states = len(ck.part.keys)
     b = BOUNDS[core.TIER]
@@ -492,6 +503,8 @@ def run():
         "established connections (the client sees EOF), the server may also close one connection while staying up",
         "a 'service call' of a bare Client is serviceConnect()+serviceReceives()+serviceTxes(); Patron and TcpClientStack "
         "are serviced with serviceAll()",
+        "a Patron built without store= owns a Store; its connector's timers must run on that same Store, which is the "
+        "clock the harness (like Patron.serviceWhile) advances",
         "TcpClientStack has no constructor parameter for reconnectable; the harness sets stack.handler.reconnectable",
         "liveness window: %d service calls after the environment turned good and the timeout has elapsed (variants immediate / "
         "realistic); variant steady has no clock jump, so the window is ceil(T/(T/4)) + 4 = %d calls" % (WINDOW, STEADY_WINDOW),
